@@ -83,7 +83,7 @@ def verify_A(mod, tier, seed=0):
         smoke = [it for it in smoke if it[0] in only]
     if smoke and not res["violations"]:
         items = [{"module": modname, "fn": it[0], "call": {"args": list(it[1]), "kwargs": {}}, "ctx": {"part": it[2] if len(it) > 2 else 0, "nparts": it[3] if len(it) > 3 else 1, "tier": tier}} for it in smoke]
-        out, err = batch_replay(items)
+        out, err = batch_replay(items, timeout=max(900, len(items)))
         if out is None:
             res["harness_errors"].append(f"real-environment smoke failed to run: {err}")
         else:
